@@ -12,8 +12,17 @@ def rowSafe : Idiom → Bool
   | .appendToReceiver | .resliceThenAppend | .inPlace | .unknown _ => false
   | _ => true
 
-/-- the result lives in storage no earlier value can reach -/
+/-- the result lives in storage no earlier value can reach (constructors: this includes the caller's own slice and
+    the slice the builder callback fills) -/
 def freshLike (i : Idiom) : Bool := i.cls == .fresh && rowSafe i
+
+/-- … for a METHOD of a value: storage the method allocated itself -/
+def freshStrict (i : Idiom) : Bool := i == .freshCopy || i == .mapIntoFresh || i == .constant
+
+theorem freshStrict_cls {i : Idiom} (h : freshStrict i = true) : i.cls = .fresh := by
+  unfold freshStrict at h
+  simp only [Bool.or_eq_true, beq_iff_eq] at h
+  rcases h with (h | h) | h <;> rw [h] <;> rfl
 
 def allSame : List SameSite :=
   [.arrFlatten1, .arrUnique0, .arrUnique1, .hashDelete1, .hashDeleteAll0, .hashUnique0, .hashEntries0]
@@ -29,19 +38,20 @@ theorem allSame_complete (s : SameSite) : s ∈ allSame := by cases s <;> simp [
 theorem allWin_complete (s : WinSite) : s ∈ allWin := by cases s <;> simp [allWin]
 theorem allNew_complete (s : NewSite) : s ∈ allNew := by cases s <;> simp [allNew]
 
-def sameOK (i : Idiom) : Bool := freshLike i || i == .returnsReceiver || i == .resliceReceiver
-def winOK' (i : Idiom) : Bool := freshLike i || i == .resliceReceiver
+def sameOK (i : Idiom) : Bool := freshStrict i || i == .returnsReceiver || i == .resliceReceiver
+def winOK' (i : Idiom) : Bool := freshStrict i || i == .resliceReceiver
 
 /-- Side condition on the table (decidable; discharged by `decide` on the regenerated table):
     * no row anywhere uses an idiom that writes through receiver storage or is not understood;
-    * every site that computes a new sequence stores it in fresh storage;
+    * every site that computes a new sequence stores it in storage the method allocated itself (`freshCopy`,
+      `mapIntoFresh`; NOT `wrapsArgument`: a slice that came from somewhere else);
     * a site may answer the receiver itself (or re-slice it) only where the model says the result IS the receiver's
       value (resp. a window of it);
     * the constructors hand out fresh storage (`wrapsArgument`: the caller's slice — the harness and the parser pass
       slices nobody else holds; `freshToCallback`: BasicCollector, whose private appends are the `owned…` rows). -/
 def idiomsSafeB (t : Table) : Bool :=
   t.all (fun r => rowSafe r.2) &&
-  allNew.all (fun s => freshLike (t.find s.key)) &&
+  allNew.all (fun s => freshStrict (t.find s.key)) &&
   allSame.all (fun s => sameOK (t.find s.key)) &&
   allWin.all (fun s => winOK' (t.find s.key)) &&
   allCtor.all (fun s => freshLike (t.find s.key))
@@ -58,20 +68,17 @@ theorem safe_rows {t : Table} (h : IdiomsSafe t) : ∀ r ∈ t, rowSafe r.2 = tr
 theorem safe_new {t : Table} (h : IdiomsSafe t) (s : NewSite) : (t.find s.key).cls = .fresh := by
   unfold IdiomsSafe idiomsSafeB at h
   simp only [Bool.and_eq_true, List.all_eq_true] at h
-  have := h.1.1.1.2 s (allNew_complete s)
-  unfold freshLike at this
-  simp only [Bool.and_eq_true, beq_iff_eq] at this
-  exact this.1
+  exact freshStrict_cls (h.1.1.1.2 s (allNew_complete s))
 
 theorem safe_same {t : Table} (h : IdiomsSafe t) (s : SameSite) :
     (t.find s.key).cls = .fresh ∨ (t.find s.key).cls = .recv ∨ (t.find s.key).cls = .reslice := by
   unfold IdiomsSafe idiomsSafeB at h
   simp only [Bool.and_eq_true, List.all_eq_true] at h
   have := h.1.1.2 s (allSame_complete s)
-  unfold sameOK freshLike at this
-  simp only [Bool.or_eq_true, Bool.and_eq_true, beq_iff_eq] at this
-  rcases this with (⟨h1, _⟩ | h2) | h3
-  · exact Or.inl h1
+  unfold sameOK at this
+  simp only [Bool.or_eq_true, beq_iff_eq] at this
+  rcases this with (h1 | h2) | h3
+  · exact Or.inl (freshStrict_cls h1)
   · right; left; rw [h2]; rfl
   · right; right; rw [h3]; rfl
 
@@ -80,10 +87,10 @@ theorem safe_win {t : Table} (h : IdiomsSafe t) (s : WinSite) :
   unfold IdiomsSafe idiomsSafeB at h
   simp only [Bool.and_eq_true, List.all_eq_true] at h
   have := h.1.2 s (allWin_complete s)
-  unfold winOK' freshLike at this
-  simp only [Bool.or_eq_true, Bool.and_eq_true, beq_iff_eq] at this
-  rcases this with ⟨h1, _⟩ | h3
-  · exact Or.inl h1
+  unfold winOK' at this
+  simp only [Bool.or_eq_true, beq_iff_eq] at this
+  rcases this with h1 | h3
+  · exact Or.inl (freshStrict_cls h1)
   · right; rw [h3]; rfl
 
 theorem safe_noWrite {t : Table} (h : IdiomsSafe t) (m : String) : t.writesInPlace m = false := by
